@@ -577,9 +577,29 @@ def gen_invocation(rng, world_state):
         if rng.random() < 0.7:
             spec["max"] = rng.choice([1, 2, 3, 5, 10, 12, 0, 0, -1])
             groups.append(rng.choice([["--max=%d" % spec["max"]]]))
-        if rng.random() < 0.2:
-            spec["pf"] = rng.choice(["%Y-%m-%dT%H:%M:%S%z", "%Y%j %X", "%s"])
-            groups.append(["-f", spec["pf"]])
+        r = rng.random()
+        if r < 0.12:
+            spec["pf"] = {"strf": rng.choice(
+                ["%Y-%m-%dT%H:%M:%S%z", "%Y%j %X", "%s"] + STRF_FORMATS)}
+        elif r < 0.24:
+            # the same ISO 8601 style formats a single date-time accepts
+            n2 = gen_notation(rng, allow_reduced=True)
+            if n2["zone"] == "hh":
+                n2["zone"] = "hhmm"
+            if n2["time"] in ("hms_dec", "hm_dec", "h_dec"):
+                n2["time"] = "hms"
+            spec["pf"] = {"notation": n2, "text": notation_format(n2)}
+        elif r < 0.34 and model.BASE[mode] == "gregorian" and (
+                1100 <= w["y"] <= 9800):
+            # directives only the standard library's strftime knows
+            spec["pf"] = {"strf": rng.choice(FALLBACK_STRF + [
+                "%a %b %d %H:%M:%S %Y", "%d %B %y", "%A %d.%m."]),
+                "fallback": True}
+        if spec.get("pf"):
+            txt = spec["pf"].get("text") or spec["pf"]["strf"]
+            name = rng.choice(["--print-format", "--format", "-f"])
+            groups.append(["%s=%s" % (name, txt)] if name.startswith("--")
+                          and rng.random() < 0.5 else [name, txt])
         step["spec"] = spec
         step["rec_groups"] = groups
         step["argv"] = None   # assembled at execution for form 1
@@ -725,6 +745,31 @@ def point_step(rng, notation, mode, cal_opt, env_cal, utc, offsets):
     return step
 
 
+def rec_step(rng, pf, mode, cal_opt, env_cal):
+    """Three points of a recurrence printed with print format `pf`."""
+    n = {"date": "cal_ext", "ystyle": "ccyy", "time": "hms", "dec": ",",
+         "zone": rng.choice(["Z", "hhmm"])}
+    w = gen_written(rng, mode, n, p_invalid=0)
+    if w["H"] == 24:
+        w["H"] = 0
+    if pf.get("fallback"):
+        w["y"] = 1100 + abs(w["y"]) % 8700
+        if w["m"] == 2 and w["d"] > 28:
+            w["d"] = 28
+    itext, ius = rng.choice([("P1D", 86400 * 10 ** 6),
+                             ("PT6H", 21600 * 10 ** 6), ("P1M", None),
+                             ("P400D", 400 * 86400 * 10 ** 6)])
+    text = "R3/%s/%s" % (written_text(n, w), itext)
+    spec = {"kind": "rec", "notation": n, "written": w, "form": 3,
+            "reps": 3, "interval_text": itext, "interval_us": ius,
+            "utc": False, "cal": cal_opt, "text": text, "pf": pf}
+    groups = common_options(rng, spec, None)
+    groups.append(["-f", pf.get("text") or pf["strf"]])
+    return {"k": "inv", "env": {"cal": env_cal, "ref": None}, "stdin": None,
+            "entry": rng.choice(["argv", "sys.argv"]), "spec": spec,
+            "rec_groups": groups, "argv": assemble(rng, [text], groups)}
+
+
 NOTATIONS_PER_TRACE = 10
 
 
@@ -783,9 +828,19 @@ def gen_directed(rng, index):
                                 [gen_offset(rng, notation["time"], False),
                                  {"text": rng.choice(["P1M", "-P1Y", "P1Y1M"]),
                                   "us": None}]))
+        if notation["time"] not in ("hms_dec", "hm_dec", "h_dec") and (
+                notation["zone"] != "hh"):
+            # the notation as the print format of a recurrence
+            steps.append(rec_step(
+                rng, {"notation": notation, "text": notation_format(notation)},
+                mode, cal_opt, env_cal))
         if mode != "gregorian":
             steps.append({"k": "host", "act": "set_mode",
                           "sp": rng.choice(model.SPELLINGS)})
+    if mode == "gregorian":
+        for strf in FALLBACK_STRF[chunk % 2::2] + ["%a %b %d %H:%M:%S %Y"]:
+            steps.append(rec_step(rng, {"strf": strf, "fallback": True},
+                                  mode, cal_opt, env_cal))
     return {"property": PROP, "kind": "directed", "index": index,
             "zones": [[0, 0, 0], [-19800, -19800, 0], [12600, 9000, 1]],
             "cur": variant % 3, "isdst": variant % 2,
@@ -803,7 +858,8 @@ def gen_random(rng, index):
     for _ in range(nsteps):
         r = rng.random()
         if r < p_host:
-            act = rng.choice(["set_mode", "set_mode", "use", "cache_clear"])
+            act = rng.choice(["set_mode", "set_mode", "use", "cache_clear",
+                              "dto", "scratch_cal"])
             steps.append({"k": "host", "act": act,
                           "sp": rng.choice(model.SPELLINGS)})
         elif r < p_host + p_pert:
@@ -1370,7 +1426,12 @@ class Sim(object):
         else:
             t = cm.written_instant_us(w, mode, w["off"])
             f = cm.civil_fields(mode, t + spec["second_delta_us"], w["off"])
-            second = cm.render(n, f, w["off"]) or written_text(n, w)
+            second = cm.render(n, f, w["off"])
+            if second is None:
+                # not writable in this notation (year beyond 9999): the
+                # second point repeats the first
+                second = written_text(n, w)
+                f = cm.civil_fields(mode, t, w["off"])
             # the interval is what the second point *as written* says
             shown = dict(f, rep=w["rep"], y=f["wy"] if w["rep"] == "week"
                          else f["y"])
@@ -1389,6 +1450,27 @@ class Sim(object):
         for g in step["rec_groups"]:
             argv += g
         return argv
+
+    def rec_point_text(self, p, pf, mode):
+        """One recurrence point as the library prints it: str(), its own
+        strftime, its dumper -- or, for directives the library leaves to the
+        standard library, the model's rendering of the point's fields."""
+        if pf is None:
+            return str(p)
+        if "notation" in pf:
+            from metomi.isodatetime import dumpers
+            return dumpers.TimePointDumper().dump(p, pf["text"])
+        if not pf.get("fallback"):
+            return p.strftime(pf["strf"])
+        y, m, d = p.to_calendar_date().get_calendar_date()
+        H, M, S = p.get_hour_minute_second()
+        tz = p.time_zone
+        off = tz.hours * 60 + tz.minutes
+        w = {"rep": "cal", "y": y, "m": m, "d": d, "H": int(H), "M": int(M),
+             "S": int(S), "us": int(round((S - int(S)) * 10 ** 6))}
+        t_us = cm.written_instant_us(w, mode, off)
+        return cm.render_strf(pf["strf"], cm.civil_fields(mode, t_us, off),
+                              off, t_us)
 
     def check_rec(self, step, spec, argv, mode, status, out, step_no):
         from metomi.isodatetime import parsers
@@ -1419,8 +1501,8 @@ class Sim(object):
                 for i, p in enumerate(rec):
                     if i >= max(maxn, 0):
                         break
-                    direct.append(p.strftime(spec["pf"]) if spec.get("pf")
-                                  else str(p))
+                    direct.append(self.rec_point_text(p, spec.get("pf"),
+                                                      mode))
             dstatus = "ok"
         except kernel.Hang:
             raise
@@ -1434,6 +1516,7 @@ class Sim(object):
                              got=[status[:200], out], library="ValueError")
             return
         if dstatus != "ok":
+            self.count("skipped.rec_direct_" + dstatus.replace(":", "_"))
             return
         if refused and maxn <= 0:
             # nothing is to be printed; whether a formatting problem of the
@@ -1461,8 +1544,13 @@ class Sim(object):
             # each point is the previous one plus the interval, by the
             # calendar rules (single-month steps clamp)
             nominal = cm.parse_designator_duration(spec["interval_text"])
-        if (ius is None and nominal is None) or spec.get("pf") or (
+        pf = spec.get("pf")
+        if (ius is None and nominal is None) or (
                 n["time"] is None) or n["zone"] is None:
+            return
+        if pf is not None and ("notation" not in pf or w["us"] or (
+                (ius or 0) % 10 ** 6) or (
+                pf["notation"]["date"] in ("y", "c") and w["rep"] == "week")):
             return
         off = w["off"]
         t0 = cm.written_instant_us(w, mode, off)
@@ -1490,6 +1578,11 @@ class Sim(object):
                  "time": "hms_dec" if (w["us"] or (ius or 0) % 10 ** 6)
                  else "hms",
                  "dec": ",", "zone": "Z" if off == 0 else "hhmm"}
+        if pf is not None:
+            self.count("probe.rec_iso_print_format")
+            out_n = pf["notation"]
+            if out_n["zone"] == "Z":
+                off = 0
         want = []
         for t in ts:
             f = cm.civil_fields(mode, t, off)
@@ -1551,6 +1644,24 @@ class Sim(object):
                     "2000-02-28T00:00:00Z")
                 str(p + parsers.DurationParser().parse("P1M2D"))
                 p.to_week_date().to_ordinal_date()
+            elif act == "dto":
+                # an operator of the host's own, with options of its own
+                from metomi.isodatetime.datetimeoper import DateTimeOperator
+                oper = DateTimeOperator(
+                    parse_format="%d/%m/%Y %H:%M", utc_mode=True,
+                    calendar_mode=step["sp"],
+                    ref_point_str="1999-12-31T23:59:59+05:30")
+                try:
+                    oper.process_time_point_str("ref", ["P1M"], "CCYYDDDThhZ")
+                    oper.process_time_point_str("28/02/2001 12:30", ["-PT1H"])
+                    oper.diff_time_point_strs("ref", "2000-03-01T00Z")
+                    list(oper.iter_recurrence_str("R2/2000-01-31T00Z/P1M",
+                                                  "%d %b"))
+                except Exception:
+                    pass
+                self.host_mode = step["sp"]
+            elif act == "scratch_cal":
+                data.Calendar().set_mode(step["sp"])
             else:
                 world.clear_caches()
 
